@@ -41,6 +41,11 @@ def run(idx: ProgramIndex, rep: Report, tier: str):
 
 
 # ---- C12-1 ---------------------------------------------------------------------------------------------------------
+    configured_defaults(idx, rep)
+    sibling_keyword_split(idx, rep)
+    full_noise_used(idx, rep)
+
+
 def marginals(idx: ProgramIndex, rep: Report):
     base = idx.find_class("_GaussianLikelihoodBase")
     n = 0
@@ -478,3 +483,108 @@ def aliasing(idx: ProgramIndex, rep: Report):
     for c in idx.subclasses(idx.find_class("_GaussianLikelihoodBase")) + idx.subclasses(idx.find_class("Noise")) + [idx.find_class("FixedGaussianNoise"), idx.find_class("LikelihoodList")]:
         funcs += list(c.methods.values())
     aliasing_obligations(idx, rep, "C12-5", funcs, 30, "likelihood / noise-model methods interpreted")
+
+
+# ---- C12-6: configured values are forwarded to helpers that default them ----------------------------------------------------
+def configured_defaults(idx: ProgramIndex, rep: Report):
+    """A class stores a constructor argument as `self.X = X`.  A method of the same class that takes a parameter X *with a default*
+    computes with the default unless the caller passes the configured value: every call of such a method from inside the class
+    must pass X (seed of the rule: DirichletClassificationLikelihood.__call__ built call-time noise with the default alpha_epsilon
+    instead of self.alpha_epsilon).  Runs over every class of the package."""
+    rep.rule("C12-6", "a method parameter that defaults a value the object was configured with (self.X = X in __init__) is passed explicitly at every call site inside the class")
+    n = 0
+    for cls in sorted(idx.package_classes(), key=lambda c: (c.module.name, c.qualname)):
+        cfg = set()
+        for k in cls.repo_mro():
+            i = k.methods.get("__init__")
+            if i is None or not i.params:
+                continue
+            for a in ast.walk(i.node):
+                tg = a.targets[0] if isinstance(a, ast.Assign) and len(a.targets) == 1 else (a.target if isinstance(a, ast.AnnAssign) else None)
+                if tg is not None and isinstance(tg, ast.Attribute) and chain(tg.value) == i.params[0] and isinstance(a.value, ast.Name) and a.value.id == tg.attr and a.value.id in i.params:
+                    cfg.add(a.value.id)
+        if not cfg:
+            continue
+        meths = cls.all_methods()
+        for mname, m in sorted(meths.items()):
+            if mname == "__init__":
+                continue
+            ar = m.node.args
+            pos = [x.arg for x in ar.posonlyargs + ar.args]
+            defaulted = set(pos[len(pos) - len(ar.defaults):]) | {x.arg for x, d in zip(ar.kwonlyargs, ar.kw_defaults) if d is not None}
+            hot = sorted((defaulted & cfg) - {pos[0] if pos else ""})
+            if not hot:
+                continue
+            for caller in meths.values():
+                # the constructor passes its own argument (self.X is not set yet)
+                for c in calls_in(caller.node):
+                    if not (isinstance(c.func, ast.Attribute) and c.func.attr == mname and isinstance(c.func.value, ast.Name)):
+                        continue
+                    for x in hot:
+                        n += 1
+                        ip = pos.index(x) - (0 if m.kind == "staticmethod" else 1) if x in pos else 10 ** 6
+                        passed = any(k.arg == x for k in c.keywords) or len(c.args) > ip or any(k.arg is None for k in c.keywords)
+                        rep.add("C12-6", "%s:%s.%s -> %s[%s]" % (cls.module.name, cls.qualname, caller.name, mname, x), "%s:%d" % (caller.module.relpath, c.lineno), passed,
+                                "`%s` is passed" % x if passed else "`%s(...)` is called without `%s`: the helper computes with its default %s instead of the configured self.%s" % (mname, x, x, x), {})
+    rep.floor("C12-6", "call sites of helpers that default a configured value", n, 2)
+
+
+# ---- C12-3 (extension): per-member keywords are split by every delegating method ----------------------------------------------
+def sibling_keyword_split(idx: ProgramIndex, rep: Report):
+    """If one delegating method of LikelihoodList treats a keyword as a per-member list (`"noise" in kwargs` -> zip), every
+    delegating method that forwards **kwargs to the members has to split it the same way; otherwise that method hands the whole
+    list to every member."""
+    L = idx.find_class("LikelihoodList")
+    split: Dict[str, Set[str]] = {}
+    delegating: List[FuncInfo] = []
+    for name, fi in sorted(L.methods.items()):
+        comps = [c for c in ast.walk(fi.node) if isinstance(c, (ast.ListComp, ast.GeneratorExp, ast.For)) and "self.likelihoods" in src(c.generators[0].iter if not isinstance(c, ast.For) else c.iter)]
+        if not comps or not fi.node.args.kwarg:
+            continue
+        # forwards **kwargs to the members?
+        fw = any(isinstance(x, ast.Call) and any(k.arg is None for k in x.keywords) for c in comps for x in ast.walk(c))
+        if not fw:
+            continue
+        delegating.append(fi)
+        kw = fi.node.args.kwarg.arg
+        for t in ast.walk(fi.node):
+            if isinstance(t, ast.Compare) and len(t.ops) == 1 and isinstance(t.ops[0], ast.In) and const_str(t.left) and chain(t.comparators[0]) == kw:
+                split.setdefault(const_str(t.left), set()).add(name)
+    for key, where in sorted(split.items()):
+        for fi in delegating:
+            ok = fi.name in where
+            rep.add("C12-3", "%s:LikelihoodList.%s[per-member keyword `%s`]" % (L.module.name, fi.name, key), fi.where, ok,
+                    "splits `%s` per member" % key if ok else
+                    "`%s` is a per-member list in %s, but %s forwards **kwargs unsplit: every member receives the whole list" % (key, "/".join(sorted(where)), fi.name), {})
+
+
+# ---- C12-7: a non-diagonal noise is not reduced to its diagonal ----------------------------------------------------------------
+def full_noise_used(idx: ProgramIndex, rep: Report):
+    """expected_log_prob = E[log N(y | f, R)] and the conditional p(y | f) = N(f, R) involve the whole noise covariance R.  The
+    shared implementations take `self._shaped_noise_covar(...).diagonal(...)`, which is R only when R is diagonal.  A likelihood
+    class whose _shaped_noise_covar can build a non-diagonal R (a Root / dense factor inside the Kronecker product: inter-task
+    noise of rank > 0) must not inherit them."""
+    rep.rule("C12-7", "likelihoods whose noise covariance can be non-diagonal do not reduce it to its diagonal in expected_log_prob / the conditional")
+    base = idx.find_class("_GaussianLikelihoodBase")
+    n = 0
+    for cls in sorted(idx.subclasses(base) + idx.subclasses(idx.find_class("_MultitaskGaussianLikelihoodBase")), key=lambda c: (c.module.name, c.qualname)):
+        snc = cls.lookup("_shaped_noise_covar")
+        if snc is None:
+            continue
+        nondiag = [c for c in calls_in(snc.node) if (chain(c.func) or "").split(".")[-1] in ("RootLinearOperator", "DenseLinearOperator", "PsdSumLinearOperator")]
+        if not nondiag:
+            continue
+        for mname in ("expected_log_prob", "forward"):
+            m = cls.lookup(mname)
+            if m is None:
+                continue
+            inst = "%s:%s[possibly non-diagonal noise]" % (m.module.name, m.qualname)
+            if any(o.rule == "C12-7" and o.instance == inst for o in rep.obligations):
+                continue
+            n += 1
+            diag_only = any(isinstance(c, ast.Call) and isinstance(c.func, ast.Attribute) and c.func.attr == "diagonal" and isinstance(c.func.value, ast.Call) and (chain(c.func.value.func) or "").endswith("_shaped_noise_covar") for c in ast.walk(m.node))
+            rep.add("C12-7", inst, m.where, not diag_only,
+                    "the whole noise covariance is used" if not diag_only else
+                    "%s.%s takes only the diagonal of _shaped_noise_covar(...), but %s._shaped_noise_covar can build a non-diagonal noise (`%s`): inter-task noise correlations are ignored in %s" % (
+                        m.cls.qualname if m.cls else "", mname, cls.qualname, " ".join(src(nondiag[0]).split())[:40], "E[log p(y|f)]" if mname == "expected_log_prob" else "p(y | f)"), {})
+    rep.floor("C12-7", "likelihood methods over a possibly non-diagonal noise", n, 2)
